@@ -276,9 +276,10 @@ def generate_pdf(document, target, zoom, **options):
             pdf_attachments.append(pdf_attachment)
     if pdf_attachments:
         content = pydyf.Dictionary({'Names': pydyf.Array()})
-        # Name trees have to be sorted by key
+        # Name trees have to be sorted by key: the bytes of the file name,
+        # not their serialization with parentheses and escapes
         for pdf_attachment in sorted(
-                pdf_attachments, key=lambda attachment: attachment['F'].data):
+                pdf_attachments, key=lambda attachment: attachment['F'].string):
             content['Names'].append(pdf_attachment['F'])
             content['Names'].append(pdf_attachment.reference)
         pdf.add_object(content)
